@@ -22,14 +22,15 @@ RULE = ('A case is one seeded coordinate-sorted NLA fragment sequence (n<=60 fra
         'one molecule before the final flush; distinct = distinct (input digest, schedule, pooling, emission order) signatures among those.')
 ASSUMPTIONS = [
     'pairs are fed as (R1,R2) tuples in the order a coordinate-sorted BAM delivers them (sorted by the start of the later mate); the real MatePairIterator path is exercised by the pipeline engines',
-    'precondition of the statement honoured by the generator: longest fragment + read length <= cache_size/2 (the margin can_be_yielded applies)',
+    'precondition of the statement honoured by the generator: paired layouts keep longest fragment + read length <= cache_size/2 (a pair arrives at the start of its later mate and triggers the check at the fragment end), single-end layouts keep read length < cache_size/2 (a read arrives at its start and triggers the check at its end)',
     'umi_hamming_distance=0 (the statement requires cross-pooling equality only for exact UMI comparison)',
+    'for the base Fragment/Molecule classes (fragments linked through a shared start or end, spans growing by chaining) there is no site-based truth and the two pooling methods compare differently (per fragment vs against the molecule span): only schedule independence within a pooling method, exactly-once and no-early-emission are checked there',
 ]
 COMPONENTS = {
     'real': ['singlecellmultiomics.molecule.MoleculeIterator', 'Molecule.can_be_yielded/add_fragment', 'NlaIIIFragment', 'NlaIIIMolecule', 'pysam.AlignedSegment'],
     'stub': [],
 }
-REQUIRED_PROBES = ['ejection_popped', 'non_prefix_pop_list', 'final_flush_nonempty', 'duplicate_arrives_after_ejectable_unrelated']
+REQUIRED_PROBES = ['single_end_long_reads', 'plain_chained_fragments', 'ejection_popped', 'non_prefix_pop_list', 'final_flush_nonempty', 'duplicate_arrives_after_ejectable_unrelated']
 EXHAUSTIVE_NOTE = 'check_eject_every is enumerated exhaustively (None, 0..n) per sampled input and pooling method; inputs and cache sizes are sampled'
 
 
@@ -75,14 +76,60 @@ def generate(seed, tier):
                                   'L': L, 'rl': rl, 'kind': 'nla', 'defect': 'single' if single else None, 'clip': 0, 'mol': mol})
                 mol += 1
     frags = frags[:60]
-    return {'params': {'cache_size': cache, 'pooling': [0, 1], 'umi_hd': 0},
+    kind = 'nla'
+    if w.random() < 0.35:
+        # base Fragment/Molecule classes: fragments of one molecule are linked through a shared start OR a shared end, so a molecule's
+        # span can grow by chaining (every fragment still obeys the precondition); no site-based truth exists for these
+        kind = 'plain'
+        out = []
+        for f in frags:
+            g = dict(f, kind='plain')
+            prev = [x for x in out if x['mol'] == f['mol']]
+            if prev and w.random() < 0.6:
+                o = w.choice(prev)
+                L = max(rl, min(maxL, w.randint(rl, max(rl, maxL))))
+                far_o = o['site'] + o['L'] if not o['rev'] else o['site'] - o['L']
+                if w.random() < 0.5:      # share the far end with o, own anchor
+                    g['L'] = L
+                    g['site'] = far_o - L if not o['rev'] else far_o + L
+                else:                     # share the anchor with o, own far end
+                    g['L'] = L
+                    g['site'] = o['site']
+            out.append(g)
+        frags = [dict(g, n=i) for i, g in enumerate(out) if g['site'] - g['L'] > 10]
+    layout = 'paired-short-reads'
+    if w.random() < 0.3:
+        # single-end long reads: the read IS the fragment; a single-end read arrives at its start and triggers the check at its end,
+        # so here the statement's own precondition (fragment shorter than the cache radius cache_size/2) is the exact one
+        layout = 'single-end-long-reads'
+        top = cache // 2 - 1
+        for f in frags:
+            f['defect'] = 'single'
+            f['L'] = f['rl'] = weighted(w, [(w.randint(20, top), 3), (top, 2), (w.randint(20, min(top, 60)), 1)])
+        if kind == 'plain':      # rebuild the start/end sharing with the new lengths
+            byn = {}
+            for f in frags:
+                prev = [x for x in byn.values() if x['mol'] == f['mol']]
+                if prev and w.random() < 0.6:
+                    o = w.choice(prev)
+                    far_o = o['site'] + o['L'] if not o['rev'] else o['site'] - o['L']
+                    if w.random() < 0.5:
+                        f['site'] = far_o - f['L'] if not o['rev'] else far_o + f['L']
+                    else:
+                        f['site'] = o['site']
+                byn[f['n']] = f
+        frags = [dict(g, n=i) for i, g in enumerate(frags) if g['site'] - g['L'] > 10]
+    return {'params': {'cache_size': cache, 'pooling': [0, 1], 'umi_hd': 0, 'kind': kind, 'layout': layout},
             'workload': frags,
             'schedules': [None] + list(range(0, len(frags) + 1))}
 
 
-def _run(header, frags_sorted, cache, pooling, sched):
-    from singlecellmultiomics.molecule import MoleculeIterator, NlaIIIMolecule
-    from singlecellmultiomics.fragment import NlaIIIFragment
+def _run(header, frags_sorted, cache, pooling, sched, kind='nla'):
+    from singlecellmultiomics.molecule import MoleculeIterator, NlaIIIMolecule, Molecule
+    from singlecellmultiomics.fragment import NlaIIIFragment, Fragment
+    mcls, fcls, fargs = NlaIIIMolecule, NlaIIIFragment, {'umi_hamming_distance': 0}
+    if kind == 'plain':
+        mcls, fcls, fargs = Molecule, Fragment, {'umi_hamming_distance': 0, 'assignment_radius': 0}
     consumed = [0]
 
     def source():
@@ -90,9 +137,9 @@ def _run(header, frags_sorted, cache, pooling, sched):
             consumed[0] += 1
             yield lib.build_pair(header, f)
 
-    it = MoleculeIterator(source(), molecule_class=NlaIIIMolecule, fragment_class=NlaIIIFragment,
+    it = MoleculeIterator(source(), molecule_class=mcls, fragment_class=fcls,
                           molecule_class_args={'cache_size': cache},
-                          fragment_class_args={'umi_hamming_distance': 0},
+                          fragment_class_args=fargs,
                           pooling_method=pooling, check_eject_every=sched, perform_qflag=False)
     groups = []
     for m in it:
@@ -112,11 +159,17 @@ def execute(case):
                                               'SQ': [{'SN': f'ctg{i}', 'LN': 10 ** 8} for i in range(nctg)]})
     fs = lib.sort_fragments(frags)
     arrival = {f['n']: i for i, f in enumerate(fs)}
-    truth = {frozenset(v) for v in lib.truth_classes(frags).values()}
+    kind = p.get('kind', 'nla')
+    truth = {frozenset(v) for v in lib.truth_classes(frags).values()} if kind == 'nla' else None
     viol, probes, sigs = [], {}, []
 
     def probe(k, n=1):
         probes[k] = probes.get(k, 0) + n
+
+    if kind == 'plain':
+        probe('plain_chained_fragments')
+    if p.get('layout') == 'single-end-long-reads':
+        probe('single_end_long_reads')
 
     # workload probe: a duplicate arrives after an unrelated molecule downstream became ejectable
     by_mol = {}
@@ -133,7 +186,7 @@ def execute(case):
                 continue
             evals += 1
             try:
-                groups = _run(header, fs, cache, pooling, sched)
+                groups = _run(header, fs, cache, pooling, sched, kind)
             except Exception as e:
                 viol.append({'property': PROPERTY, 'class': 'iterator-raised', 'signature': type(e).__name__,
                              'detail': {'pooling': pooling, 'schedule': sched, 'error': repr(e)[:300]}})
@@ -157,12 +210,12 @@ def execute(case):
                 continue
             if sched is None:
                 ref = part
-                if part != truth:
+                if truth is not None and part != truth:
                     viol.append({'property': PROPERTY, 'class': 'partition-differs-from-truth', 'signature': f'pooling{pooling}/no-eject',
                                  'detail': {'pooling': pooling, 'schedule': None,
                                             'got_only': sorted(map(sorted, part - truth))[:4], 'truth_only': sorted(map(sorted, truth - part))[:4]}})
                 continue
-            base = ref if ref is not None else truth
+            base = ref if ref is not None else (truth or part)
             if part != base:
                 split = any(any(g < b for b in base) for g in part - base)
                 # early emission: a molecule was yielded while a later-arriving fragment of its reference group was pending
